@@ -140,6 +140,23 @@ def _dump(n, index, out):
         if isinstance(n, ast.Name):
             out.append(f"N:{'_L%d' % index[n.id] if n.id in index else n.id}:{type(n.ctx).__name__[0]}")
             return
+        if isinstance(n, ast.Compare) and len(n.ops) == 1 and isinstance(n.ops[0], (ast.Lt, ast.LtE, ast.Gt, ast.GtE, ast.Eq, ast.NotEq)):
+            # mirrored comparisons are the same statement: a < b is dumped as b > a, ==/!= with sorted operands
+            l, r, op = n.left, n.comparators[0], type(n.ops[0])
+            if op in (ast.Lt, ast.LtE):
+                l, r, op = r, l, (ast.Gt if op is ast.Lt else ast.GtE)
+            lo: list = []
+            ro: list = []
+            _dump(l, index, lo)
+            _dump(r, index, ro)
+            if op in (ast.Eq, ast.NotEq) and "".join(lo) > "".join(ro):
+                lo, ro = ro, lo
+            out.append("Cmp(" + op.__name__ + ",")
+            out.extend(lo)
+            out.append(",")
+            out.extend(ro)
+            out.append(")")
+            return
         out.append(type(n).__name__)
         out.append("(")
         for f in n._fields:
